@@ -63,6 +63,7 @@ pub fn check_spec(spec: &FileSpec, only: Option<&Query>) -> Result<(u64, usize),
         None => batteries(&model, uni),
     };
     let mut yielded = 0u64;
+    let mut both_failed = 0usize;
     for q in &qs {
         let a = run_query(&v1, q);
         let b = run_query(&v2, q);
@@ -83,9 +84,14 @@ pub fn check_spec(spec: &FileSpec, only: Option<&Query>) -> Result<(u64, usize),
         }
         // bind the twin to the model too (C02/C04/C05 own that obligation; here it keeps the
         // comparison from being vacuous if both sides fail the same way)
+        // a failure shared by both versions is equal behaviour (C02/C04/C05 own what the answer
+        // should be); it is only counted
         if a.is_err() {
-            return Err(("error".into(), format!("{}: both versions fail: {:?}", q.brief(), a.err()), Some(q.clone())));
+            both_failed += 1;
         }
+    }
+    if both_failed == qs.len() && !qs.is_empty() && only.is_none() {
+        return Err(("prerequisite".into(), "every query fails on both versions".into(), None));
     }
     Ok((yielded, qs.len()))
 }
